@@ -5,7 +5,7 @@ CONSTANTS
   MaxLy = 2
   QChars = {33, 84, 85, 126}
   MaxUmi = 2
-  Indexes = {"single", "dual"}
+  Indexes = {"single", "dual", "empty"}
   Limit = 60
   RequireSafe = TRUE
   Variant = "design"
